@@ -29,7 +29,7 @@ VERIF = os.path.dirname(HERE)
 ID = "C15"
 LEVEL = "exploration"
 RULE_TEXT = (
-    "9 fresh interpreters (normal/-O/-OO x ICONTRACT_SLOW unset/empty/non-empty), complete; in each: the full matrix decorator kind x enabled "
+    "9 fresh interpreters (normal/-O/-OO x ICONTRACT_SLOW unset/empty/non-empty), complete, plus 6 matrix-only interpreters with other non-empty values ('0', 'false', blank, 'No', 'off'); in each: the full matrix decorator kind x enabled "
     "form x callable kind (absence / enforcement), a seeded batch of all-enabled simulated runs whose digests must agree across interpreters, and "
     "a seeded batch of worlds with mixed enabled forms compared with the same worlds without the contracts expected to be disabled. "
     "non-trivial/distinct = distinct (configuration, decorator kind, enabled form, callable kind) matrix cells exercised plus distinct batch digests"
@@ -41,6 +41,8 @@ ASSUMPTIONS = [
 MODES = [[], ["-O"], ["-OO"]]
 SLOWS = [None, "", "x"]
 N_BATCH = {"quick": 150, "thorough": 2500}
+# further non-empty values of ICONTRACT_SLOW ("set to a non-empty string" - whatever the string says): matrix only
+EXTRA_SLOWS = [([], "0"), ([], "false"), ([], " "), ([], "No"), ([], "off"), (["-O"], "0")]
 
 
 # -------------------------------------------------------------------------------------------------
@@ -451,11 +453,27 @@ def main_check(tier, seed):
     t0 = time.time()
     n = int(os.environ.get("VERIF_RUNS", "0") or 0) or N_BATCH[tier]
     procs = []
+    extra_cells = set()
+    extra_violations = []
     for mode in MODES:
         for slow in SLOWS:
             procs.append((mode, slow, _launch(mode, slow, seed, n)))
+    extra = [(mode, slow, _launch(mode, slow, seed, 0)) for mode, slow in EXTRA_SLOWS]
     results = []
     status = 0
+    for mode, slow, p in extra:
+        so, se = p.communicate(timeout=2400)
+        line = [l for l in so.decode(errors="replace").splitlines() if l.startswith("C15WORKER ")]
+        if p.returncode != 0 or not line:
+            sys.stdout.write("HARNESS-ERROR worker %s ICONTRACT_SLOW=%r failed (exit %s): %s\n" % (mode, slow, p.returncode, se.decode(errors="replace")[-1500:]))
+            status = 2
+            continue
+        res = json.loads(line[0][len("C15WORKER "):])
+        cfg = "%s/set:%r" % ("".join(mode) or "normal", slow)
+        for c in res["cells"]:
+            extra_cells.add((cfg,) + tuple(c))
+        for pr in res["problems"]:
+            extra_violations.append({"rule": "C15.R1", "classifier": "matrix:%s:%s" % (cfg, ":".join(pr["cell"])), "detail": pr, "config": cfg})
     for mode, slow, p in procs:
         so, se = p.communicate(timeout=2400)
         line = [l for l in so.decode(errors="replace").splitlines() if l.startswith("C15WORKER ")]
@@ -464,8 +482,8 @@ def main_check(tier, seed):
             status = 2
             continue
         results.append((mode, slow, json.loads(line[0][len("C15WORKER "):])))
-    violations = []
-    cells = set()
+    violations = list(extra_violations)
+    cells = set(extra_cells)
     for mode, slow, res in results:
         cfg = "%s/%s" % ("".join(mode) or "normal", "unset" if slow is None else ("empty" if slow == "" else "set"))
         for c in res["cells"]:
